@@ -28,3 +28,14 @@ pub assume_specification<T>[Option::<T>::replace](o: &mut Option<T>, v: T) -> (r
 {
     q.iter().position(|x| x == needle)
 }
+
+// `VecDeque::get`: "Provides a reference to the element at the given index. Element at index 0 is the front
+// of the queue." (None if out of bounds).
+pub assume_specification<T, A: std::alloc::Allocator>[VecDeque::<T, A>::get](q: &VecDeque<T, A>, i: usize) -> (r: Option<&T>)
+    ensures
+        r == (if i < q@.len() { Some(&q@[i as int]) } else { None::<&T> });
+
+// `VecDeque::front`: "Provides a reference to the front element, or None if the deque is empty."
+pub assume_specification<T, A: std::alloc::Allocator>[VecDeque::<T, A>::front](q: &VecDeque<T, A>) -> (r: Option<&T>)
+    ensures
+        r == (if q@.len() > 0 { Some(&q@[0]) } else { None::<&T> });
